@@ -168,11 +168,15 @@ def probs_to_logits(rows):
 
 class C07(PropertyCheck):
     pid = "C07"
-    rule = ("eight case kinds: seq (all hyp ranks 1-4, every dim incl. negative, eos set/unset/absent/"
-            "out of vocabulary/negative, OOV tokens, sizes 0-3), packed (every length pattern for N<=4 "
-            "(quick: N<=3), sorted and unsorted, dim 0/1/-1/-2, eos argument given or not), advance "
+    rule = ("nine case kinds: seq (all hyp ranks 1-4, every dim incl. negative, eos set/unset/absent/"
+            "out of vocabulary/negative, OOV tokens, sizes 0-3 incl. a zero-size sequence dimension with "
+            "eos set), packed (every length pattern for N<=4 "
+            "(quick: N<=3), sorted and unsorted, dim 0/1/-1/-2, eos argument given or not; malformed: hyp "
+            "with a sequence too many / too few, sorted/unsorted indices outside the batch), advance "
             "(random_walk_advance called directly: no prefix lengths / all full / none full / mixed, "
-            "S 0-3), walk (every canonical draw sequence of tiny LMs with V<=3, max_iters<=3(4) or "
+            "S 0-3; malformed incl. a prefix length beyond y_prev), lpraise (log_prob call sequences on one "
+            "caching distribution whose language model raises on out-of-vocabulary history tokens: a value "
+            "with garbage after its first eos, or any OOV token with validate_args=False), walk (every canonical draw sequence of tiny LMs with V<=3, max_iters<=3(4) or "
             "unset, N<=3, every eos index -V..V-1 or unset, batch_size set/unset, initial state "
             "selecting the tables), dist (support, expand=False, log_prob of every support row as "
             "long/float tensors, validation and support.check of rows of every length, validate_args "
@@ -209,7 +213,7 @@ class C07(PropertyCheck):
     def cases(self, rng, tier):
         gens = [self.gen_dist(rng, tier), self.gen_sample(rng, tier), self.gen_walk(rng, tier),
                 self.gen_seq(rng, tier), self.gen_packed(rng, tier), self.gen_greedy(rng, tier),
-                self.gen_ctor(rng, tier), self.gen_advance(rng, tier)]
+                self.gen_ctor(rng, tier), self.gen_advance(rng, tier), self.gen_lpraise(rng, tier)]
         # round robin so that a time budget cuts all kinds evenly
         live = list(gens)
         while live:
@@ -237,13 +241,13 @@ class C07(PropertyCheck):
             shape = [rng.choice([0, 1, 2, 2, 3, 3]) for _ in range(nd)]
             dim = rng.randrange(-nd, nd)
             d = dim % nd
-            V = rng.choice([1, 2, 3, 4])
+            # V = 0 (no class at all): gather raises as soon as hyp has a cell
+            V = rng.choice([1, 2, 3, 4, 1, 2, 3, 4, 1, 2, 3, 4, 0])
             eos_kind = rng.choice(["none", "in", "in", "in", "oov", "neg"])
-            eos = {"none": None, "in": rng.randrange(V), "oov": V + rng.randrange(2),
+            eos = {"none": None, "in": rng.randrange(max(V, 1)), "oov": V + rng.randrange(2),
                    "neg": -1 - rng.randrange(2)}[eos_kind]
-            if shape[d] == 0 and eos is not None:
-                # zero-size sequence dimension with eos set: _lens_from_eos raises (C01's finding, _string.py)
-                eos = None
+            # a zero-size sequence dimension with eos set is generated too: _lens_from_eos used to raise
+            # there (C01's finding in _string.py, repaired); every score is then the empty sum
             yield self.mk_seq(rng, shape, V, dim, eos, exact=(i % 2 == 0), dtype=rng.choice(DT_W),
                               lay=(rng.choice(LAY_W), rng.choice(LAY_W)))
 
@@ -282,6 +286,18 @@ class C07(PropertyCheck):
                                          eos_arg=rng.choice([None, None, rng.randrange(V)]))
         # malformed: hyp shorter than the longest sequence
         yield self.mk_packed(rng, [3, 1], True, 1, 2, -1, True)
+        # malformed: hyp with a sequence too many / too few; index tensors that point outside the batch
+        for lens, enforce in (([3, 1], True), ([1, 3], False), ([2, 2, 1], True), ([1, 2, 2], False)):
+            for dim in (1, 0):
+                for rows in (-1, 1):
+                    c = self.mk_packed(rng, lens, enforce, dim, 2, 0, True)
+                    c["hyp_rows"] = rows
+                    yield c
+                if not enforce:
+                    for which in ("sidx", "uidx"):
+                        c = self.mk_packed(rng, lens, enforce, dim, 2, 0, True)
+                        c["bad_index"] = which
+                        yield c
 
     def mk_packed(self, rng, lens, enforce, dim, V, extra, exact, dtype="f32",
                   lay=("contig", "contig"), eos_arg=None):
@@ -355,7 +371,7 @@ class C07(PropertyCheck):
     # ---- advance: the step function called directly (with and without prefix lengths)
     def gen_advance(self, rng, tier):
         n = {"quick": 150, "thorough": 1500, "search": 2000}[tier]
-        for bad in ("lp_t_dim", "lp_prev_shape", "y_prev_dim", "y_prev_width", "lens_shape"):
+        for bad in ("lp_t_dim", "lp_prev_shape", "y_prev_dim", "y_prev_width", "lens_shape", "lens_beyond"):
             yield self.mk_advance(rng, 2, 2, 2, True, bad=bad)
         for i in range(n):
             N = rng.choice([1, 2, 3])
@@ -488,6 +504,144 @@ class C07(PropertyCheck):
                                    "validate_args": rng.choice([True, True, None, False]),
                                    "dtype": rng.choice(DT_W), "lm_layout": rng.choice(LAY_W),
                                    "lm_mut": mut, "default_junk": dj}
+
+    # ---- lpraise: log_prob call sequences on one caching distribution whose language model raises
+    LPRAISE_TRACES = {
+        # indices into values = [good, bad, good2]; "c" = clear_cache()
+        "stale": [0, 1, 1, 0, 2],        # after the failed call the cache names `bad` with the scores of `good`
+        "fresh": [1, 1],                 # first call on an empty cache fails, second trips the assert
+        "cleared": [0, 1, "c", 1, 0],    # clear_cache() between the failed call and its repetition
+        "clean": [0, 2, 0, 0],           # no call reaches the raising scorer
+    }
+
+    def gen_lpraise(self, rng, tier):
+        reps = {"quick": 1, "thorough": 4, "search": 6}[tier]
+        for _ in range(reps):
+            for V in (2, 3):
+                for T in (3, 4):
+                    for N in (None, 1, 2):
+                        for eos in [None] + list(range(V)):
+                            for trace in self.LPRAISE_TRACES:
+                                # garbage after the first eos passes validation; without eos (or with
+                                # validation off) the out-of-vocabulary token sits anywhere but last
+                                va = False if eos is None else rng.choice([True, None, False])
+                                n = N or 1
+                                supp = self.py_support(V, T, eos)
+
+                                def bad_row():
+                                    r = list(rng.choice(supp))
+                                    if eos is not None and va is not False:
+                                        r = [rng.randrange(V) for _ in range(rng.randrange(0, T - 2))]
+                                        r = [x for x in r if x != eos] + [eos]
+                                        r += [rng.randrange(V) for _ in range(T - len(r))]
+                                        j = rng.randrange(r.index(eos) + 1, T - 1)
+                                    else:
+                                        j = rng.randrange(0, T - 1)
+                                    r[j] = V + rng.randrange(0, 2)
+                                    return r
+                                good = [list(rng.choice(supp)) for _ in range(n)]
+                                good2 = [list(rng.choice(supp)) for _ in range(n)]
+                                if good2 == good:
+                                    good2 = [list(supp[(supp.index(r) + 1) % len(supp)]) for r in good]
+                                bad = [list(rng.choice(supp)) for _ in range(n)]
+                                bad[rng.randrange(n)] = bad_row()
+                                yield {"kind": "lpraise", "V": V, "N": N, "eos": eos, "max_iters": T,
+                                       "tables": lm_tables(rng, V, n, T, eos, True), "default": lm_row(rng, V, True),
+                                       "exact": True, "validate_args": va, "values": [good, bad, good2],
+                                       "trace": trace, "shared": N is None, "sel": None}
+
+    def impl_lpraise(self, case):
+        import torch
+        from pydrobert.torch.modules import RandomWalk
+        from pydrobert.torch.distributions import SequentialLanguageModelDistribution
+        V, N, T = case["V"], case["N"], case["max_iters"]
+        lm = tl.make_lm(V, case["tables"], case["default"], case["eos"], shared=N is None, raise_oov=True)
+        walk = RandomWalk(lm, case["eos"])
+        obs = {}
+        with tl.identity_log_softmax():
+            for cache in (True, False):
+                dist = SequentialLanguageModelDistribution(walk, N, None, T, cache_samples=cache,
+                                                           validate_args=case["validate_args"])
+                outs = []
+                for op in self.LPRAISE_TRACES[case["trace"]]:
+                    if op == "c":
+                        dist.clear_cache()
+                        continue
+                    rows = case["values"][op]
+                    value = torch.tensor(rows, dtype=torch.long).view([1] + ([] if N is None else [N]) + [T])
+                    try:
+                        outs.append([tl.fs(x) for x in dist.log_prob(value).reshape(-1).tolist()])
+                    except Exception as ex:
+                        outs.append({"error": type(ex).__name__, "message": str(ex)[:120]})
+                obs["cached" if cache else "fresh"] = outs
+        return obs
+
+    def req_lpraise(self, case):
+        N = case["N"]
+        tabs = tables_for(case, N or 1)
+        return {"op": "c07.lpraise", "case": {
+            "V": case["V"], "N": N, "eos": case["eos"], "max_iters": case["max_iters"],
+            "lm": tables_json(tabs, True), "lm_default": tl.lsm_rows([case["default"]], True)[0],
+            "validate_args": case["validate_args"], "values": case["values"],
+            "trace": [{"op": "clear"} if op == "c" else {"op": "lp", "val": op}
+                      for op in self.LPRAISE_TRACES[case["trace"]]]}}
+
+    @staticmethod
+    def lp_same(a, b):
+        """two log_prob outcomes agree: the same error class, or the same scores"""
+        if isinstance(a, dict) or isinstance(b, dict):
+            return isinstance(a, dict) and isinstance(b, dict) and a["error"] == b["error"]
+        return all_close(a, b, True)
+
+    @staticmethod
+    def lp_model(o):
+        return {"error": o} if isinstance(o, str) else o
+
+    def cmp_lpraise(self, case, impl, model):
+        if self.err(impl):
+            return [f"implementation raised {impl['error']}: {impl.get('message')}"]
+        m = {k: [self.lp_model(o) for o in v] for k, v in model["model"].items()}
+        ref = [self.lp_model(o) for o in model["spec"]["reference"]]
+        if m["repaired_cached"] != ref or m["repaired_fresh"] != ref or m["pinned_fresh"] != ref:
+            raise RuntimeError("internal: the repaired / cache-free state machine differs from the reference "
+                               "(C07_log_prob_cache)")
+        if model["flags"]["scorable"] and m["pinned_cached"] != ref:
+            raise RuntimeError("internal: pinned state machine differs from the reference although no call "
+                               "reaches a raising scorer (C07_log_prob_cache_pinned_partial)")
+        out = []
+        same = lambda xs, ys: len(xs) == len(ys) and all(self.lp_same(x, y) for x, y in zip(xs, ys))
+        if not same(impl["fresh"], m["pinned_fresh"]):
+            out.append(f"cache_samples=False: impl={impl['fresh']} model={m['pinned_fresh']}")
+        # the caching object follows the pinned write order (samples cached before scoring) or the repaired one
+        if not same(impl["cached"], m["pinned_cached"]) and not same(impl["cached"], m["repaired_cached"]):
+            out.append(f"cache_samples=True: impl={impl['cached']} model(pinned order)={m['pinned_cached']} "
+                       f"model(repaired order)={m['repaired_cached']}")
+        return out
+
+    def pred_lpraise(self, case, impl, model):
+        if self.err(impl):
+            return [(f"log_prob sequence raised {impl['error']}: {impl.get('message')}", None)]
+        ref = [self.lp_model(o) for o in model["spec"]["reference"]]
+        pinned = [self.lp_model(o) for o in model["model"]["pinned_cached"]]
+        fails = []
+        ops = [op for op in self.LPRAISE_TRACES[case["trace"]] if op != "c"]
+        for key in ("fresh", "cached"):
+            for i, (o, r) in enumerate(zip(impl[key], ref)):
+                if self.lp_same(o, r):
+                    continue
+                sig = None
+                # the known defect: exactly what the pinned write order gives (scores of the value scored
+                # before the failed call, or the internal AssertionError on an empty cache)
+                if key == "cached" and isinstance(r, dict) and r["error"] == "IndexError" \
+                        and self.lp_same(o, pinned[i]) and i > 0 and ops[i] == ops[i - 1] == 1:
+                    sig = "C07.log_prob.cache_after_exception"
+                what = "raised " + o["error"] if isinstance(o, dict) else f"returned {o}"
+                want = "raises " + r["error"] if isinstance(r, dict) else f"returns {r}"
+                fails.append((f"cache_samples={key == 'cached'}: log_prob call {i} (value {ops[i]} of "
+                              f"{case['values']}, trace {case['trace']}) {what}; a distribution that never "
+                              f"caches {want} (the language model raises IndexError on out-of-vocabulary "
+                              f"history tokens)", sig))
+        return fails
 
     # ---- greedy
     def gen_greedy(self, rng, tier):
@@ -626,7 +780,17 @@ class C07(PropertyCheck):
         if case.get("lay_data") not in (None, "contig"):
             ps = PackedSequence(tl.relayout(ps.data, case["lay_data"]), ps.batch_sizes,
                                 ps.sorted_indices, ps.unsorted_indices)
-        hyp = tl.relayout(torch.tensor(case["hyp"], dtype=torch.long).view(N, -1), case.get("lay_hyp"))
+        if case.get("bad_index"):
+            # an index tensor that points outside the batch (the PackedSequence constructor does not check)
+            si, ui = ps.sorted_indices.clone(), ps.unsorted_indices.clone()
+            (si if case["bad_index"] == "sidx" else ui)[0] = N
+            ps = PackedSequence(ps.data, ps.batch_sizes, si, ui)
+        hyp = torch.tensor(case["hyp"], dtype=torch.long).view(N, -1)
+        if case.get("hyp_rows", 0) > 0:
+            hyp = torch.cat([hyp, hyp[:1]], 0)      # one sequence more than the packed batch
+        elif case.get("hyp_rows", 0) < 0:
+            hyp = hyp[:-1]                           # one sequence less
+        hyp = tl.relayout(hyp, case.get("lay_hyp"))
         return logits, lens, ps, hyp
 
     def impl_packed(self, case):
@@ -645,7 +809,7 @@ class C07(PropertyCheck):
                 out = sequence_log_probs(ps, h, dim, case["eos_arg"])
             # the same sequences as a padded tensor: positions beyond the length are made padding
             Tm = logits.size(1)
-            hp = hyp[:, :Tm].clone() if hyp.size(1) >= Tm else None
+            hp = hyp[:, :Tm].clone() if hyp.size(1) >= Tm and hyp.size(0) == logits.size(0) else None
             padded = None
             if hp is not None:
                 hp[torch.arange(Tm).unsqueeze(0) >= lens.unsqueeze(1)] = -1
@@ -762,6 +926,10 @@ class C07(PropertyCheck):
             y_prev = torch.cat([y_prev, y_prev[:, :1]], 1)
         elif bad == "lens_shape":
             lens = torch.cat([lens, lens[:1]])
+        elif bad == "lens_beyond":
+            # a prefix length beyond the rows of y_prev (+1 for the row that is appended): scatter raises
+            lens = lens.clone()
+            lens[0] = S + 1
         saved = (lp_t.clone(), lp_prev.clone(), y_prev.clone(), None if lens is None else lens.clone())
         log = []
         with tl.replay_multinomial([case["draw"]], log):
@@ -1066,7 +1234,8 @@ class C07(PropertyCheck):
         if m is not None and model["spec"] and m != model["spec"]:
             raise RuntimeError(f"internal: model {m} != spec {model['spec']} (C07_seq)")
         if m is None:
-            return [] if self.err(impl) else ["model: dimension error, implementation returned a value"]
+            return [] if self.err(impl) else ["model: dimension / empty class dimension error, "
+                                              "implementation returned a value"]
         if self.err(impl):
             return [f"implementation raised {impl['error']}: {impl.get('message')}"]
         if not all_close(impl["out"], m, case["exact"]):
@@ -1080,6 +1249,12 @@ class C07(PropertyCheck):
                 return [("dim out of range accepted", None)]
             return [] if impl["error"] in ("RuntimeError", "IndexError") else [
                 (f"dim out of range raised {impl['error']}", None)]
+        if case["V"] == 0 and prodl(case["shape"]) > 0:
+            # no class to gather from: an error (the model says so too, C07_seq_dim)
+            if not self.err(impl):
+                return [("logits without classes (V=0) and a non-empty hyp accepted", None)]
+            return [] if impl["error"] in ("RuntimeError", "IndexError") else [
+                (f"V=0 raised {impl['error']}", None)]
         if self.err(impl):
             return [(f"sequence_log_probs raised {impl['error']}: {impl.get('message')}", None)]
         d = case["dim"] % nd
@@ -1111,6 +1286,20 @@ class C07(PropertyCheck):
         T = len(case["hyp"][0])
         if T < max(case["lens"]):
             return [] if self.err(impl) else [("hyp shorter than the packed sequences accepted", None)]
+        rows, bad = case.get("hyp_rows", 0), case.get("bad_index")
+        if bad or rows:
+            # a hyp / index tensor that does not fit the packed batch: an error, except that with
+            # sorted_indices index_select picks the packed batch's sequences out of a larger hyp
+            what = f"index tensor {bad} pointing outside the batch" if bad else \
+                f"hyp with {len(case['lens']) + rows} sequences for a packed batch of {len(case['lens'])}"
+            if rows > 0 and not case["enforce_sorted"]:
+                if self.err(impl):
+                    return [(f"{what}: raised {impl['error']}", None)]
+                return [] if all_close(impl["out"], model["spec"], case["exact"]) else [
+                    (f"{what}: {impl['out']} differs from per-sequence sums {model['spec']}", None)]
+            if self.err(impl) and impl["error"] in ("RuntimeError", "IndexError"):
+                return []
+            return [(f"{what}: expected RuntimeError/IndexError, got {impl}", None)]
         if self.err(impl):
             sig = None
             if case["dim"] < 0 and impl["error"] == "IndexError":
@@ -1134,6 +1323,9 @@ class C07(PropertyCheck):
 
     # ---- walk
     def cmp_walk(self, case, impl, model):
+        if not all(model["flags"].values()):
+            raise RuntimeError(f"internal: the draw hypotheses of C07_walk do not hold on a generated "
+                               f"case: {model['flags']}")
         if model["model"]["lp"] != model["spec"]["chained"] or model["model"]["rescored"] != model["spec"]["chained"]:
             raise RuntimeError(f"internal: walk model {model['model']} != spec {model['spec']} (C07_walk)")
         if self.err(impl):
@@ -1355,6 +1547,9 @@ class C07(PropertyCheck):
         if not model["flags"]["scored"]:
             raise RuntimeError("internal: the walks' scores differ from the scores of the sampled rows "
                                "(hypothesis of C07_log_prob_cache)")
+        if not model["flags"]["draw_hyps"]:
+            raise RuntimeError("internal: the draw hypotheses of C07_sample_in_support / "
+                               "C07_sample_batched_in_support do not hold on a generated case")
         if impl["rows"] != m["rows"]:
             out.append(f"sample rows impl={impl['rows']} model={m['rows']}")
         else:
@@ -1589,6 +1784,8 @@ class C07(PropertyCheck):
             return case["eos"] is not None and case["max_iters"] >= 2
         if k == "sample":
             return prodl(case["shape"]) > 0 and (impl["shape"][-1] >= 2 or len(case["shape"]) != 1)
+        if k == "lpraise":
+            return case["trace"] != "clean"
         if k == "greedy":
             fr = sum(min(case["T"], l) if case["lens"] is not None else case["T"]
                      for l in (case["lens"] or [0] * len(case["frames"])))
@@ -1632,6 +1829,11 @@ class C07(PropertyCheck):
                                 "oov" if not (0 <= case["eos"] < case["V"]) else "in"),
                   "stream=" + ("exact" if case["exact"] else "tol"), f"seq.dtype={case.get('dtype', 'f32')}"]
             lay("seq", "lay_logits", "lay_hyp")
+            nd_ = len(case["shape"])
+            if -nd_ <= case["dim"] < nd_ and case["shape"][case["dim"] % nd_] == 0 and case["eos"] is not None:
+                t.append("seq.zero_size_sequence_dim_with_eos")
+            if case["V"] == 0:
+                t.append("seq.no_classes(V=0)," + ("hyp has cells" if prodl(case["shape"]) else "hyp empty"))
             self.junk_tags(t, "seq", case, self.seq_ignored(case).reshape(-1).tolist())
         elif k == "packed":
             t += [f"packed.N={len(case['lens'])}", f"packed.dim={case['dim']}",
@@ -1640,6 +1842,10 @@ class C07(PropertyCheck):
                   f"packed.dtype={case.get('dtype', 'f32')}",
                   "packed.eos_arg=" + ("unset" if case.get("eos_arg") is None else "set")]
             lay("packed", "lay_data", "lay_hyp")
+            if case.get("hyp_rows"):
+                t.append("packed.malformed=hyp with a sequence too " + ("many" if case["hyp_rows"] > 0 else "few"))
+            if case.get("bad_index"):
+                t.append("packed.malformed=" + case["bad_index"] + " outside the batch")
             Tm = max(case["lens"])
             self.junk_tags(t, "packed", case, [tt >= case["lens"][n] or (tt < len(h) and not 0 <= h[tt] < case["V"])
                                                for n, h in enumerate(case["hyp"]) for tt in range(Tm)])
@@ -1685,6 +1891,10 @@ class C07(PropertyCheck):
             lay("greedy", "lay_logits", "lay_lens")
             self.junk_tags(t, "greedy", case, [case["lens"] is not None and tt >= case["lens"][n]
                                                for n in range(len(case["frames"])) for tt in range(case["T"])])
+        elif k == "lpraise":
+            t += [f"lpraise.trace={case['trace']}", f"lpraise.batch={case['N']}",
+                  f"lpraise.validate_args={case['validate_args']}",
+                  "lpraise.eos=" + ("unset" if case["eos"] is None else "index")]
         elif k == "ctor":
             t.append("ctor." + case["what"])
         elif k == "advance":
